@@ -21,6 +21,8 @@ out += ["", "## Seeds that were dropped", "",
         "- C13 round 4, mutation E (AssignIDs no longer fills the cached types under the function lock): its only trigger was the lazily rewritten alloca type, which the `fix:` commit e6d655a removed; its demonstration passes on the current tree.",
         "- C08 round 4, mutation F (declaration parameter numbers validated against the position in the list): made obsolete by the `fix:` commit b65575c, which validates them correctly; the patch no longer applies.",
         "- C10 round 2, mutation A (float printed in decimal whenever exact as a double): after the `fix:` commit 58a4c9d (exact decimal printing) the change no longer alters any printed literal's value under LLVM's reading; its demonstration passes, so it is not a violation any more and was not kept.",
+        "- C18 round 1, mutation A (the DISPFlag printer stops walking at the first bit without a name, losing DISPFlagObjCDirect): after the `fix:` commit 1ad91e2 bits the walk does not name are printed as one integer, so the same change now prints `... | 2048`, which reads back as the same flag set; not a violation any more.",
+        "- C20 round 3, mutation E (the parser places metadata definitions with small IDs directly at their index and fills the gaps with the others, which leaves Module.MetadataDefs out of ID order for sparse numbering): since the `fix:` commit 72ae51f the printer lists metadata definitions by ascending ID whatever the order of the slice, so the printed module is in order again; not a violation of C20 any more.",
         ]
 open('/verif/seeded/RESULTS.md', 'w').write("\n".join(out) + "\n")
 print("wrote RESULTS.md:", len(rows), "seeds,", len(missed), "initially missed")
